@@ -26,7 +26,7 @@ PINNED = {}
 class C07Check(Check):
     """line-level ddmin (vcheck) followed by token-level minimisation of the key lists of bget / pbget lines"""
 
-    def shrink(self, case_ops, hbin, exe, exe_args, budget=150):
+    def shrink(self, case_ops, hbin, exe, exe_args, budget=150, only_prop=False, want_prop=False):
         cur = super().shrink(case_ops, hbin, exe, exe_args, budget)
         if not self._fails(cur, hbin, exe, exe_args):
             return cur
